@@ -118,7 +118,9 @@ def execute(case: dict) -> dict:
                 resp.set_cookie(ck, cv)
             if rs.get("compress"):
                 resp.enable_compression()
-            if rs.get("chunked") and kind != "file":
+            if rs.get("chunked") and kind != "file" and rs.get("chunked_hdr"):
+                resp.headers["Transfer-Encoding"] = "chunked"  # the handler's own spelling (copied from an upstream response)
+            elif rs.get("chunked") and kind != "file":
                 resp.enable_chunked_encoding()
             if rs.get("force_close"):
                 resp.force_close()
@@ -214,7 +216,11 @@ def execute(case: dict) -> dict:
                     kwargs["data"] = fd
                     expect_post = sorted([("f1", "value1"), ("file", ("file", "a b.bin", payload))])
                     expect_body = None
-                if rq.get("chunked") and (body_kind not in ("none",) or rq.get("chunked_nobody")):
+                if rq.get("chunked") and rq.get("chunked_hdr") and body_kind not in ("none",):
+                    # the other spelling: the caller sets the header itself (a proxy copying headers does); what is
+                    # announced is how the body has to go out
+                    kwargs["headers"] = kwargs["headers"] + [("Transfer-Encoding", "chunked")]
+                elif rq.get("chunked") and (body_kind not in ("none",) or rq.get("chunked_nobody")):
                     kwargs["chunked"] = True  # (also asked for without any body: then there is simply nothing to frame)
                 elif rq.get("chunked_false") and body_kind not in ("none",):
                     kwargs["chunked"] = False  # explicit: length-delimited whenever the size is known
@@ -448,6 +454,7 @@ def cases(draw):
         rq["expect_hdr"] = draw(st.sampled_from([None, None, "100-continue", "100-Continue", "100-CONTINUE"]))
     rq["via_proxy"] = draw(st.integers(0, 5)) == 0
     rq["chunked_nobody"] = draw(st.booleans())
+    rq["chunked_hdr"] = draw(st.integers(0, 2)) == 0
     if body_kind not in ("none", "form", "multipart"):
         rq["handler_reads"] = draw(st.sampled_from(["all", "all", "all", "none", "some"]))
     if rq["chunked"] and rq["compress"]:
@@ -462,6 +469,7 @@ def cases(draw):
         "compress": draw(st.integers(0, 3)) == 0, "chunked": draw(st.integers(0, 3)) == 0, "force_close": draw(st.integers(0, 5)) == 0,
         "writes": draw(st.integers(0, 6)), "declare_length": draw(st.booleans()), "yield_between": draw(st.booleans()), "eof_data": draw(st.booleans()),
     }
+    rs["chunked_hdr"] = draw(st.integers(0, 2)) == 0
     if kind == "file":
         rs["status"] = 200  # FileResponse chooses 206/304/416 itself from the request headers
     if rq["http10"]:
